@@ -62,7 +62,11 @@ pub fn c_alphabet() -> Vec<COp> {
 }
 
 pub struct CWorld<F: Fl> {
-    pub objs: Vec<F::Node>,
+    /// the program's own handles; in `container_owned` mode the handle of an
+    /// object is dropped while the object is a member (the container then holds
+    /// the only strong handle) and taken back from `remove`
+    pub objs: Vec<Option<F::Node>>,
+    pub container_owned: bool,
     pub g: F::Graph,
     /// model: key -> object
     pub members: BTreeMap<K, usize>,
@@ -77,6 +81,8 @@ pub struct CState {
 
 impl<F: Fl> CWorld<F> {
     pub fn new(seed: u64, ctor: u8) -> Self {
+        let container_owned = ctor >= 10;
+        let ctor = ctor % 10;
         if F::SYNC {
             ensure_monitor();
         }
@@ -87,10 +93,17 @@ impl<F: Fl> CWorld<F> {
             _ => F::g_new(),
         };
         set_seed(None);
-        CWorld { objs: (0..NOBJ).map(|o| F::node(obj_key(o), Val::new(obj_val(o)))).collect(), g, members: BTreeMap::new(), flip: false }
+        CWorld { objs: (0..NOBJ).map(|o| Some(F::node(obj_key(o), Val::new(obj_val(o))))).collect(), container_owned, g, members: BTreeMap::new(), flip: false }
+    }
+    /// Some handle of object `o`: the program's own, or the container's when the program holds none.
+    fn h(&self, o: usize) -> F::Node {
+        match &self.objs[o] {
+            Some(n) => n.clone(),
+            None => F::g_get(&self.g, obj_key(o)).expect("object is neither held nor a member"),
+        }
     }
     fn adj_world(&self) -> World<F> {
-        World { nodes: self.objs[..3].to_vec() }
+        World { nodes: (0..3).map(|o| self.h(o)).collect() }
     }
     pub fn state(&self) -> CState {
         CState { members: self.members.iter().map(|(k, o)| (*k, *o)).collect(), adj: self.adj_world().observe_raw() }
@@ -105,7 +118,7 @@ impl<F: Fl> CWorld<F> {
                 F::g_index(&self.g, obj_key(o))
             }
         } else {
-            self.objs[o].clone()
+            self.h(o)
         }
     }
 
@@ -113,22 +126,39 @@ impl<F: Fl> CWorld<F> {
     pub fn apply(&mut self, op: &COp) -> Result<(), Bad> {
         match *op {
             COp::Insert(o) => {
-                let r = F::g_insert(&mut self.g, self.objs[o].clone());
+                let pre = self.adj_world().observe_raw();
+                let handle = self.h(o);
+                let r = F::g_insert(&mut self.g, handle);
                 let exp = !self.members.contains_key(&obj_key(o));
                 if exp {
                     self.members.insert(obj_key(o), o);
+                    if self.container_owned && r {
+                        // from now on the container holds the only strong handle
+                        self.objs[o] = None;
+                    }
                 }
                 if r != exp {
                     return bad("insert/return", format!("{} returned {}, key present before: {}", op.show(), r, !exp));
                 }
+                if self.adj_world().observe_raw() != pre {
+                    return bad("insert/changed-edges", format!("{} changed the adjacency of the graph nodes", op.show()));
+                }
             }
             COp::Remove(k) => {
+                let pre = self.adj_world().observe_raw();
                 let r = F::g_remove(&mut self.g, k);
                 let exp = self.members.remove(&k);
                 match (&r, exp) {
                     (None, None) => {}
-                    (Some(n), Some(o)) if F::key(n) == k && F::pval(n) == obj_val(o) => {}
+                    (Some(n), Some(o)) if F::key(n) == k && F::pval(n) == obj_val(o) => {
+                        if self.objs[o].is_none() {
+                            self.objs[o] = r.clone();
+                        }
+                    }
                     _ => return bad("remove/return", format!("{} returned {:?}, model expected object {:?}", op.show(), r.as_ref().map(|n| (F::key(n), F::pval(n))), exp)),
+                }
+                if self.adj_world().observe_raw() != pre {
+                    return bad("remove/changed-edges", format!("{} changed the adjacency of the graph nodes: {:?} -> {:?}", op.show(), pre, self.adj_world().observe_raw()));
                 }
             }
             COp::Edge(e) => {
@@ -235,7 +265,7 @@ impl<F: Fl> CWorld<F> {
     fn iterated_edges(&self) -> Vec<(K, K, E)> {
         let mut v = Vec::new();
         for o in self.members.values() {
-            for e in F::edges_into_iter(&self.objs[*o]) {
+            for e in F::edges_into_iter(&self.h(*o)) {
                 v.push(F::edge_accessors(&e));
             }
         }
@@ -314,6 +344,9 @@ pub struct ContParams {
     pub max_depth: usize,
     pub seeds: Vec<u64>,
     pub dot_attr_max_edges: usize,
+    /// the program keeps no handle of its own to members (the container owns them)
+    #[serde(default)]
+    pub container_owned: bool,
 }
 
 fn build<F: Fl>(h: &[COp], seed: u64, ctor: u8) -> Result<CWorld<F>, (usize, String, String)> {
@@ -384,6 +417,7 @@ pub fn explore<F: Fl>(job: &Job, out: &mut Out) {
             order: h.len() as u64,
         });
     };
+    let own: u8 = if p.container_owned { 10 } else { 0 };
     // the three constructors give the same empty container
     for ctor in 0..3u8 {
         out.stats.inc("evaluations");
@@ -391,7 +425,7 @@ pub fn explore<F: Fl>(job: &Job, out: &mut Out) {
             report(out, c, w, &[], p.seeds[0], ctor);
         }
     }
-    match check_history::<F>(&[], p.seeds[0], 0, false) {
+    match check_history::<F>(&[], p.seeds[0], own, false) {
         Ok(s) => {
             index.insert(s, 0);
         }
@@ -401,7 +435,7 @@ pub fn explore<F: Fl>(job: &Job, out: &mut Out) {
     while cur < hist.len() {
         let h = hist[cur].clone();
         cur += 1;
-        crate::progress::set_case(|| json!({"kind":"cont","flavour":F::NAME,"history":h,"seed":p.seeds[0],"ctor":0}).to_string());
+        crate::progress::set_case(|| json!({"kind":"cont","flavour":F::NAME,"history":h,"seed":p.seeds[0],"ctor":own}).to_string());
         out.stats.inc("states");
         out.stats.max("max_depth", h.len() as u64);
         if h.len() >= p.max_depth {
@@ -421,14 +455,14 @@ pub fn explore<F: Fl>(job: &Job, out: &mut Out) {
                 }
                 // attribute combinations on small states, first seed only
                 let small = live_edges_of(&nh) <= p.dot_attr_max_edges && si == 0;
-                match check_history::<F>(&nh, *seed, 0, small) {
+                match check_history::<F>(&nh, *seed, own, small) {
                     Ok(s) => {
                         if first.is_none() {
                             first = Some(s);
                         }
                     }
                     Err((c, w)) => {
-                        report(out, c, w, &nh, *seed, 0);
+                        report(out, c, w, &nh, *seed, own);
                         failed = true;
                         break;
                     }
